@@ -456,6 +456,11 @@ def strload(val: str | bytes | bytearray | memoryview) -> PythonValueT:
     Args:
         val: The string-like input to be decoded.
     """
+    # The memo needs a hashable key: writable buffers are snapshotted as bytes.
+    if isinstance(val, memoryview):
+        val = val.tobytes()
+    elif isinstance(val, bytearray):
+        val = bytes(val)
     loaded = _strload(val)
     # The decoded value is memoized. Containers are mutable, so never hand the
     #   cached object itself to a caller - they own what they get.
